@@ -532,6 +532,15 @@ func writeReplay(out *propOutcome, ob *Obligation, vc *VC, withModel bool) viola
 	} else {
 		rep["note"] = "the solver produced no model (" + res.Status + "); the obligation was discharged on the unchanged tree and is not discharged now"
 	}
+	// no confirmed input from a solver model: for small-input function shapes, search the real code's
+	// behaviour on a stated finite domain for an input that falsifies the obligation
+	if v.NoInput && searchHarness != nil && searchHarness.Match(vc, ob) {
+		ok, detail := searchHarness.Run(vc, ob, nil)
+		rep["replay_search"] = detail
+		if ok {
+			v.NoInput = false
+		}
+	}
 	data, _ := json.MarshalIndent(rep, "", " ")
 	os.WriteFile(file, append(data, '\n'), 0o644)
 	return v
